@@ -138,8 +138,8 @@ class SqueethAdapter:
         n = m.market_info.name
         um = self.ua.market
         out = []
-        weth_bal = lambda: ctx.broker.get_token_balance(WETH)
-        osq_bal = lambda: ctx.broker.get_token_balance(OSQTH)
+        weth_bal = lambda: ctx.broker.get_token_balance(WETH) if WETH in ctx.broker.assets else Decimal(0)
+        osq_bal = lambda: ctx.broker.get_token_balance(OSQTH) if OSQTH in ctx.broker.assets else Decimal(0)
         vaults = sorted(m.vault.keys(), key=lambda k: k.id)[:2]
         free_pos = [k for k, p in sorted(um._positions.items()) if not p.transferred and p.liquidity > 0][:1]
 
